@@ -23,5 +23,9 @@ import BU.Properties.C08_Key
 #print axioms C08GenTree.gen_merkle_root_edge
 #print axioms C08GenTree.gen_calculate_tweak
 #print axioms C08GenTree.gen_root_eq_spec
+#print axioms C08GenTree.gen_traverse
+#print axioms C08GenTree.gen_merkle_path
+#print axioms C08GenTree.gen_control_block
+#print axioms C08GenTree.gen_control_block_verifies
 #print axioms C08GenTweak.gen_tweak_taproot_pubkey
 #print axioms C08.control_block_verifies_for_key
